@@ -6,12 +6,11 @@ PROP = dict(
     required_theorems=["C02_compile_correct_F0", "C02_compile_correct_F0_program", "C02_depth_unsafe_counterexample",
                        "C02_compile_correct_F0_needs_depth_safe", "C02_reg_roundtrip", "C02_reg_encode_range"],
     harness_bin="c02",
-    # end-to-end requests (`sem …`): the model IS the executable specification (reference interpreter), so a
-    # difference is a concrete failing program (also reported, shrunk, through spec_fail).  The `cgen …`
-    # requests compare exact instruction streams: more than the property fixes, but a difference there means
-    # the compile model under the F0 theorem no longer is the code — reported as a violation as well, with the
-    # end-to-end stream deciding whether a failing *program* exists.
-    mismatch_is_violation=True,
+    # `sem …` requests (end to end): the model IS the executable specification, so a difference is a concrete failing
+    # program — the harness itself asks the model, shrinks the program and reports it through spec_fail (=> VIOLATION with
+    # a failing input).  `cgen …` requests compare exact instruction streams, more than the property fixes: a bare
+    # difference there (no spec_fail) is reported as `no-failing-input-found`.
+    mismatch_is_violation=False,
     rule="typed program generator (harness/src/progen.rs), tiers F0 (ints, bools, locals, operators, short-circuit, "
          "if/else, blocks+shadowing, let/var, assignment forms, while/break/continue, println), F1 (+tuples, structs, "
          "enums, match, arrays with aliasing, for, strings), F2 (+functions, recursion, return, option/result, ?/!), "
